@@ -448,6 +448,77 @@ where
     crate::cover!(s, m > 128, "long skip");
 }
 
+/// backend kinds on the reading side: the same read_bits from the same reader state over a strict
+/// MemWordReader, a fixed-slice writer read back and a byte-stream adapter over a Cursor returns the
+/// same value and leaves the same buffer state as over the zero-extended reader (inside the data)
+pub fn reader_backend_kinds_step<E: En, W: VW + DoubleType, S: Src, const K: usize>(s: &mut S)
+where
+    Bb<W>: VW,
+    Rd<E, W, K>: RdOk<E, W, K>,
+    for<'a> BufBitReader<E, MemWordReader<W, &'a [W], false>>: BitRead<E, Error = std::io::Error, PeekWord = Bb<W>>,
+    for<'a> BufBitReader<E, MemWordWriterSlice<W, &'a mut [W]>>: BitRead<E, Error = std::io::Error, PeekWord = Bb<W>>,
+    for<'a> BufBitReader<E, WordAdapter<W, std::io::Cursor<&'a [u8]>>>: BitRead<E, Error = std::io::Error, PeekWord = Bb<W>>,
+{
+    let st = RState::<W, K>::any::<E, S>(s, 2 * W::NBITS - 1);
+    let m = s.usize_in(0, 64);
+    s.assume(st.n + (K - st.pos) * W::NBITS >= m);
+    let mut r0 = st.reader::<E>();
+    let v0 = r0.read_bits(m).unwrap();
+    let (b0, n0) = r0.verif_parts();
+    macro_rules! same {
+        ($r:expr, $what:literal) => {{
+            let res = $r.read_bits(m);
+            let got = match res {
+                Ok(x) => Some(x),
+                Err(e) => {
+                    core::mem::forget(e);
+                    None
+                }
+            };
+            assert!(got == Some(v0), $what);
+            let (b, n) = $r.verif_parts();
+            assert!(b == b0 && n == n0, $what);
+        }};
+    }
+    // strict reader
+    {
+        let mut b = MemWordReader::new_strict(&st.data[..]);
+        let ok = b.set_word_pos(st.pos as u64).is_ok();
+        assert!(ok);
+        let mut r = BufBitReader::<E, _>::verif_from_parts(b, st.buffer, st.n);
+        same!(r, "strict MemWordReader differs from the zero-extended one inside the data");
+        core::mem::forget(r);
+    }
+    // fixed-slice writer read back
+    {
+        let mut copy = st.data;
+        let mut b = MemWordWriterSlice::new(&mut copy[..]);
+        let ok = b.set_word_pos(st.pos as u64).is_ok();
+        assert!(ok);
+        let mut r = BufBitReader::<E, _>::verif_from_parts(b, st.buffer, st.n);
+        same!(r, "fixed-slice writer read back differs from the memory reader");
+        core::mem::forget(r);
+    }
+    // byte-stream adapter over a Cursor on the native bytes of the same words
+    {
+        let nb = W::NBITS / 8;
+        let mut bytes = [0u8; 32];
+        assert!(K * nb <= 32);
+        let mut i = 0;
+        while i < K * nb {
+            bytes[i] = ((st.data[i / nb].to_u128() >> (8 * (i % nb))) & 0xff) as u8;
+            i += 1;
+        }
+        let mut b = WordAdapter::<W, _>::new(std::io::Cursor::new(&bytes[..K * nb]));
+        let ok = b.set_word_pos(st.pos as u64).is_ok();
+        assert!(ok);
+        let mut r = BufBitReader::<E, _>::verif_from_parts(b, st.buffer, st.n);
+        same!(r, "byte-stream adapter differs from the memory reader");
+        core::mem::forget(r);
+    }
+    crate::cover!(s, m > st.n, "read refills from the backend");
+}
+
 crate::harnesses! {
     c02_model_stream_val_be_u64 (quick, "BE,u64", "model self-check") => model_stream_val::<BE, u64, _>;
     c02_model_stream_val_be_u16 (quick, "BE,u16", "model self-check") => model_stream_val::<BE, u16, _>;
@@ -532,4 +603,36 @@ crate::harnesses! {
     c02_ub_read_unary_le (quick, "LE,unbuffered,K=5", "first one within 192 bits") => ub_read_unary_step::<LE, _, 5>;
     c02_ub_skip_clone_be (quick, "BE,unbuffered,K=3", "skip<=300 then read_bits(<=64) on clone and original") => ub_skip_clone_step::<BE, _, 3>;
     c02_ub_skip_clone_le (quick, "LE,unbuffered,K=3", "skip<=300 then read_bits(<=64) on clone and original") => ub_skip_clone_step::<LE, _, 3>;
+    #[kani::stub(alloc::fmt::format, crate::c13::stub_format)]
+    #[kani::stub(std::string::ToString::to_string, crate::c13::stub_to_string)]
+    #[kani::unwind(36)]
+    c02_backends_be_u8 (thorough, "BE,u8,K=10: strict MemWordReader / MemWordWriterSlice read back / WordAdapter<Cursor> vs zero-extended", "read_bits(n<=64) inside the data from any Inv_r state: same value and state over every backend kind") => reader_backend_kinds_step::<BE, u8, _, 10>;
+    #[kani::stub(alloc::fmt::format, crate::c13::stub_format)]
+    #[kani::stub(std::string::ToString::to_string, crate::c13::stub_to_string)]
+    #[kani::unwind(36)]
+    c02_backends_be_u16 (thorough, "BE,u16,K=6: strict MemWordReader / MemWordWriterSlice read back / WordAdapter<Cursor> vs zero-extended", "read_bits(n<=64) inside the data from any Inv_r state: same value and state over every backend kind") => reader_backend_kinds_step::<BE, u16, _, 6>;
+    #[kani::stub(alloc::fmt::format, crate::c13::stub_format)]
+    #[kani::stub(std::string::ToString::to_string, crate::c13::stub_to_string)]
+    #[kani::unwind(36)]
+    c02_backends_be_u32 (quick, "BE,u32,K=4: strict MemWordReader / MemWordWriterSlice read back / WordAdapter<Cursor> vs zero-extended", "read_bits(n<=64) inside the data from any Inv_r state: same value and state over every backend kind") => reader_backend_kinds_step::<BE, u32, _, 4>;
+    #[kani::stub(alloc::fmt::format, crate::c13::stub_format)]
+    #[kani::stub(std::string::ToString::to_string, crate::c13::stub_to_string)]
+    #[kani::unwind(36)]
+    c02_backends_be_u64 (thorough, "BE,u64,K=3: strict MemWordReader / MemWordWriterSlice read back / WordAdapter<Cursor> vs zero-extended", "read_bits(n<=64) inside the data from any Inv_r state: same value and state over every backend kind") => reader_backend_kinds_step::<BE, u64, _, 3>;
+    #[kani::stub(alloc::fmt::format, crate::c13::stub_format)]
+    #[kani::stub(std::string::ToString::to_string, crate::c13::stub_to_string)]
+    #[kani::unwind(36)]
+    c02_backends_le_u8 (thorough, "LE,u8,K=10: strict MemWordReader / MemWordWriterSlice read back / WordAdapter<Cursor> vs zero-extended", "read_bits(n<=64) inside the data from any Inv_r state: same value and state over every backend kind") => reader_backend_kinds_step::<LE, u8, _, 10>;
+    #[kani::stub(alloc::fmt::format, crate::c13::stub_format)]
+    #[kani::stub(std::string::ToString::to_string, crate::c13::stub_to_string)]
+    #[kani::unwind(36)]
+    c02_backends_le_u16 (quick, "LE,u16,K=6: strict MemWordReader / MemWordWriterSlice read back / WordAdapter<Cursor> vs zero-extended", "read_bits(n<=64) inside the data from any Inv_r state: same value and state over every backend kind") => reader_backend_kinds_step::<LE, u16, _, 6>;
+    #[kani::stub(alloc::fmt::format, crate::c13::stub_format)]
+    #[kani::stub(std::string::ToString::to_string, crate::c13::stub_to_string)]
+    #[kani::unwind(36)]
+    c02_backends_le_u32 (thorough, "LE,u32,K=4: strict MemWordReader / MemWordWriterSlice read back / WordAdapter<Cursor> vs zero-extended", "read_bits(n<=64) inside the data from any Inv_r state: same value and state over every backend kind") => reader_backend_kinds_step::<LE, u32, _, 4>;
+    #[kani::stub(alloc::fmt::format, crate::c13::stub_format)]
+    #[kani::stub(std::string::ToString::to_string, crate::c13::stub_to_string)]
+    #[kani::unwind(36)]
+    c02_backends_le_u64 (thorough, "LE,u64,K=3: strict MemWordReader / MemWordWriterSlice read back / WordAdapter<Cursor> vs zero-extended", "read_bits(n<=64) inside the data from any Inv_r state: same value and state over every backend kind") => reader_backend_kinds_step::<LE, u64, _, 3>;
 }
